@@ -120,6 +120,11 @@ func main() {
 		}
 	})
 	sort.Slice(sel, func(i, j int) bool { return sel[i].PkgPath < sel[j].PkgPath })
+	if want["gyield"] {
+		for _, p := range sel {
+			findAliasFuncs(p)
+		}
+	}
 	overlay := map[string]string{}
 	nerr := 0
 	for _, p := range sel {
@@ -663,6 +668,60 @@ func rootIdent(e ast.Expr) *ast.Ident {
 	}
 }
 
+// aliasFuncs holds the functions that hand out package-level storage: their
+// body slices or takes the address of a package-level variable (directly, not in
+// a call argument only) and they return a slice, pointer or map. A caller of
+// such a function holds a view of storage every other caller shares (a scratch
+// buffer reused between calls), so the point right after the call is an
+// interesting scheduling point as well.
+var aliasFuncs = map[string]bool{}
+
+func findAliasFuncs(p *packages.Package) {
+	info := p.TypesInfo
+	for _, file := range p.Syntax {
+		for _, d := range file.Decls {
+			fd, ok := d.(*ast.FuncDecl)
+			if !ok || fd.Body == nil || fd.Type.Results == nil {
+				continue
+			}
+			obj, _ := info.Defs[fd.Name].(*types.Func)
+			if obj == nil {
+				continue
+			}
+			refResult := false
+			sig := obj.Type().(*types.Signature)
+			for i := 0; i < sig.Results().Len(); i++ {
+				switch sig.Results().At(i).Type().Underlying().(type) {
+				case *types.Slice, *types.Pointer, *types.Map:
+					refResult = true
+				}
+			}
+			if !refResult {
+				continue
+			}
+			takes := false
+			ast.Inspect(fd.Body, func(n ast.Node) bool {
+				switch x := n.(type) {
+				case *ast.SliceExpr:
+					if id := rootIdent(x.X); id != nil && isPkgVarIdent(info, id) {
+						takes = true
+					}
+				case *ast.UnaryExpr:
+					if x.Op == token.AND {
+						if id := rootIdent(x.X); id != nil && isPkgVarIdent(info, id) {
+							takes = true
+						}
+					}
+				}
+				return !takes
+			})
+			if takes {
+				aliasFuncs[obj.FullName()] = true
+			}
+		}
+	}
+}
+
 // passesPkgStorage reports whether the call hands package-level storage to its
 // callee by reference: g[i:j] of a package-level array or slice, &g / &g.f /
 // &g[i], or a package-level variable of slice, map or pointer type. The callee
@@ -670,6 +729,18 @@ func rootIdent(e ast.Expr) *ast.Ident {
 // (*bytes.Buffer).Write ...) may write it, so the point right after the call is
 // an interesting scheduling point.
 func passesPkgStorage(info *types.Info, call *ast.CallExpr) bool {
+	var callee *ast.Ident
+	switch f := call.Fun.(type) {
+	case *ast.Ident:
+		callee = f
+	case *ast.SelectorExpr:
+		callee = f.Sel
+	}
+	if callee != nil {
+		if fn, ok := info.Uses[callee].(*types.Func); ok && aliasFuncs[fn.FullName()] {
+			return true
+		}
+	}
 	exprs := append([]ast.Expr{}, call.Args...)
 	if sel, ok := call.Fun.(*ast.SelectorExpr); ok {
 		exprs = append(exprs, sel.X) // method receiver
@@ -721,8 +792,13 @@ func passGYield(p *packages.Package, file *ast.File, f *fileRW) {
 				continue
 			}
 			tv, ok := info.Types[in]
-			if !ok || tv.Type == nil || tv.IsType() {
-				continue
+			if !ok || tv.Type == nil || tv.IsType() || tv.Value != nil {
+				continue // constant expressions (len of an array) must stay constant
+			}
+			if id, ok := in.Fun.(*ast.Ident); ok {
+				if _, isBuiltin := info.Uses[id].(*types.Builtin); isBuiltin && (id.Name == "len" || id.Name == "cap") {
+					continue // pure reads
+				}
 			}
 			if _, isTuple := tv.Type.(*types.Tuple); isTuple {
 				continue
